@@ -15,6 +15,7 @@ import (
 
 	"github.com/MichaelMure/git-bug/repository"
 	"github.com/MichaelMure/git-bug/util/lamport"
+	"github.com/MichaelMure/git-bug/zzverif/verifrtfs"
 )
 
 var ErrFrozen = errors.New("simulated crash: process is dead, I/O frozen")
@@ -161,16 +162,12 @@ type SimRepo struct {
 	C     *Control
 	// ClockDir is the directory of the persisted clock files ("" for in-memory clocks).
 	ClockDir string
-	// NoNet makes FetchRefs/PushRefs plain pass-through without accounting as mutation.
-	ls *simLocalStorage
 }
 
 var _ repository.ClockedRepo = &SimRepo{}
 
 func NewSimRepo(inner repository.ClockedRepo, c *Control, clockDir string) *SimRepo {
-	s := &SimRepo{Inner: inner, C: c, ClockDir: clockDir}
-	s.ls = &simLocalStorage{LocalStorage: inner.LocalStorage(), c: c}
-	return s
+	return &SimRepo{Inner: inner, C: c, ClockDir: clockDir}
 }
 
 func (s *SimRepo) Close() error {
@@ -195,7 +192,8 @@ func (s *SimRepo) GetRemotes() (map[string]string, error) {
 	return s.Inner.GetRemotes()
 }
 
-func (s *SimRepo) LocalStorage() repository.LocalStorage { return s.ls }
+// LocalStorage: file operations are gated below, at the osfs seam (gateFS).
+func (s *SimRepo) LocalStorage() repository.LocalStorage { return s.Inner.LocalStorage() }
 
 func (s *SimRepo) GetIndex(name string) (repository.Index, error) {
 	if s.C.IsFrozen() {
@@ -350,80 +348,24 @@ func (s *SimRepo) AllClocks() (map[string]lamport.Clock, error) {
 
 func (s *SimRepo) GetOrCreateClock(name string) (lamport.Clock, error) {
 	// may create the clock file: a mutation
-	crash, err := s.C.gate("GetOrCreateClock", true, name)
-	if err != nil {
-		if crash {
-			s.tornClock(name, func() error { _, e := s.Inner.GetOrCreateClock(name); return e })
-		}
+	if _, err := s.C.gate("GetOrCreateClock", true, name); err != nil {
 		return nil, err
 	}
 	return s.Inner.GetOrCreateClock(name)
 }
 
 func (s *SimRepo) Increment(name string) (lamport.Time, error) {
-	crash, err := s.C.gate("Increment", true, name)
-	if err != nil {
-		if crash {
-			s.tornClock(name, func() error { _, e := s.Inner.Increment(name); return e })
-		}
+	if _, err := s.C.gate("Increment", true, name); err != nil {
 		return 0, err
 	}
 	return s.Inner.Increment(name)
 }
 
 func (s *SimRepo) Witness(name string, time lamport.Time) error {
-	crash, err := s.C.gate("Witness", true, fmt.Sprintf("%s %d", name, time))
-	if err != nil {
-		if crash {
-			s.tornClock(name, func() error { return s.Inner.Witness(name, time) })
-		}
+	if _, err := s.C.gate("Witness", true, fmt.Sprintf("%s %d", name, time)); err != nil {
 		return err
 	}
 	return s.Inner.Witness(name, time)
-}
-
-// tornClock realises the torn-file variants of a clock rewrite interrupted by the
-// crash: the real call is performed to learn the new content, then the file is left
-// as old content, new content, or a truncation of the new content.
-func (s *SimRepo) tornClock(name string, do func() error) {
-	if s.ClockDir == "" || s.C.Torn == "" || s.C.Torn == "old" {
-		s.C.TornDone = "old"
-		return
-	}
-	p := filepath.Join(s.ClockDir, name)
-	old, oldErr := os.ReadFile(p)
-	if err := do(); err != nil {
-		return
-	}
-	neu, err := os.ReadFile(p)
-	if err != nil {
-		return
-	}
-	var content []byte
-	switch {
-	case s.C.Torn == "new":
-		content = neu
-	case s.C.Torn == "empty":
-		content = []byte{}
-	case strings.HasPrefix(s.C.Torn, "prefix:"):
-		var n int
-		fmt.Sscanf(s.C.Torn, "prefix:%d", &n)
-		if n >= len(neu) {
-			n = len(neu) - 1
-		}
-		if n < 0 {
-			n = 0
-		}
-		content = neu[:n]
-	default:
-		if oldErr != nil {
-			_ = os.Remove(p)
-			return
-		}
-		content = old
-	}
-	_ = os.WriteFile(p, content, 0o644)
-	s.C.TornDone = s.C.Torn
 }
 
 func shortSum(b []byte) string {
@@ -431,72 +373,136 @@ func shortSum(b []byte) string {
 	return fmt.Sprintf("%x", s[:4])
 }
 
-// ---- local storage ----------------------------------------------------------------
+// ---- file system seam (.git/git-bug: clocks, cache files, lock) ------------------------
 
-type simLocalStorage struct {
-	repository.LocalStorage
-	c *Control
+// The R-fs rule routes GoGitRepo's osfs through gateFS. The Control of the incarnation
+// that currently owns a root directory is looked up at every call.
+var (
+	fsMu       sync.Mutex
+	fsControls = map[string]*Control{}
+)
+
+func RegisterFSControl(root string, c *Control) {
+	fsMu.Lock()
+	fsControls[filepath.Clean(root)] = c
+	fsMu.Unlock()
 }
 
-func (l *simLocalStorage) Create(filename string) (billy.File, error) {
-	if _, err := l.c.gate("fs.Create", true, filename); err != nil {
-		return nil, err
+func UnregisterFSControl(root string, c *Control) {
+	fsMu.Lock()
+	if fsControls[filepath.Clean(root)] == c {
+		delete(fsControls, filepath.Clean(root))
 	}
-	f, err := l.LocalStorage.Create(filename)
-	if err != nil {
-		return nil, err
-	}
-	return &simFile{File: f, c: l.c, name: filename}, nil
+	fsMu.Unlock()
 }
 
-func (l *simLocalStorage) OpenFile(filename string, flag int, perm os.FileMode) (billy.File, error) {
+func init() {
+	verifrtfs.SetHook(func(root string, fs billy.Filesystem) billy.Filesystem {
+		return &gateFS{Filesystem: fs, root: filepath.Clean(root)}
+	})
+}
+
+type gateFS struct {
+	billy.Filesystem
+	root string
+}
+
+func (g *gateFS) ctl() *Control {
+	fsMu.Lock()
+	defer fsMu.Unlock()
+	return fsControls[g.root]
+}
+
+func (g *gateFS) Create(filename string) (billy.File, error) {
+	c := g.ctl()
+	if c != nil {
+		if _, err := c.gate("fs.Create", true, filename); err != nil {
+			return nil, err
+		}
+	}
+	f, err := g.Filesystem.Create(filename)
+	if err != nil || c == nil {
+		return f, err
+	}
+	return &simFile{File: f, c: c, name: filename}, nil
+}
+
+func (g *gateFS) OpenFile(filename string, flag int, perm os.FileMode) (billy.File, error) {
+	c := g.ctl()
 	write := flag&(os.O_WRONLY|os.O_RDWR|os.O_CREATE|os.O_TRUNC|os.O_APPEND) != 0
-	if _, err := l.c.gate("fs.OpenFile", write, filename); err != nil {
-		return nil, err
+	if c != nil {
+		if _, err := c.gate("fs.OpenFile", write, filename); err != nil {
+			return nil, err
+		}
 	}
-	f, err := l.LocalStorage.OpenFile(filename, flag, perm)
-	if err != nil {
-		return nil, err
+	f, err := g.Filesystem.OpenFile(filename, flag, perm)
+	if err != nil || c == nil || !write {
+		return f, err
 	}
-	if write {
-		return &simFile{File: f, c: l.c, name: filename}, nil
-	}
-	return f, nil
+	return &simFile{File: f, c: c, name: filename}, nil
 }
 
-func (l *simLocalStorage) Open(filename string) (billy.File, error) {
-	if _, err := l.c.gate("fs.Open", false, filename); err != nil {
-		return nil, err
+func (g *gateFS) Open(filename string) (billy.File, error) {
+	if c := g.ctl(); c != nil {
+		if _, err := c.gate("fs.Open", false, filename); err != nil {
+			return nil, err
+		}
 	}
-	return l.LocalStorage.Open(filename)
+	return g.Filesystem.Open(filename)
 }
 
-func (l *simLocalStorage) Remove(filename string) error {
-	if _, err := l.c.gate("fs.Remove", true, filename); err != nil {
-		return err
+func (g *gateFS) TempFile(dir, prefix string) (billy.File, error) {
+	c := g.ctl()
+	if c != nil {
+		if _, err := c.gate("fs.TempFile", true, dir+"/"+prefix); err != nil {
+			return nil, err
+		}
 	}
-	return l.LocalStorage.Remove(filename)
+	f, err := g.Filesystem.TempFile(dir, prefix)
+	if err != nil || c == nil {
+		return f, err
+	}
+	return &simFile{File: f, c: c, name: "tmp:" + prefix}, nil
 }
 
-func (l *simLocalStorage) Rename(oldpath, newpath string) error {
-	if _, err := l.c.gate("fs.Rename", true, oldpath+" "+newpath); err != nil {
-		return err
+func (g *gateFS) Remove(filename string) error {
+	if c := g.ctl(); c != nil {
+		if _, err := c.gate("fs.Remove", true, filename); err != nil {
+			return err
+		}
 	}
-	return l.LocalStorage.Rename(oldpath, newpath)
+	return g.Filesystem.Remove(filename)
 }
 
-func (l *simLocalStorage) RemoveAll(path string) error {
-	if _, err := l.c.gate("fs.RemoveAll", true, path); err != nil {
-		return err
+func (g *gateFS) Rename(oldpath, newpath string) error {
+	if c := g.ctl(); c != nil {
+		// temp file names are random: log the destination only
+		if _, err := c.gate("fs.Rename", true, "-> "+newpath); err != nil {
+			return err
+		}
 	}
-	return l.LocalStorage.RemoveAll(path)
+	return g.Filesystem.Rename(oldpath, newpath)
 }
 
-func (l *simLocalStorage) MkdirAll(filename string, perm os.FileMode) error {
-	if l.c.IsFrozen() {
+func (g *gateFS) Stat(filename string) (os.FileInfo, error) {
+	if c := g.ctl(); c != nil && c.IsFrozen() {
+		return nil, ErrFrozen
+	}
+	return g.Filesystem.Stat(filename)
+}
+
+func (g *gateFS) ReadDir(path string) ([]os.FileInfo, error) {
+	if c := g.ctl(); c != nil && c.IsFrozen() {
+		return nil, ErrFrozen
+	}
+	return g.Filesystem.ReadDir(path)
+}
+
+func (g *gateFS) MkdirAll(filename string, perm os.FileMode) error {
+	if c := g.ctl(); c != nil && c.IsFrozen() {
 		return ErrFrozen
 	}
-	return l.LocalStorage.MkdirAll(filename, perm)
+	return g.Filesystem.MkdirAll(filename, perm)
 }
 
 type simFile struct {
@@ -524,7 +530,7 @@ func (f *simFile) Write(p []byte) (int, error) {
 				_, _ = f.File.Write(p[:n])
 			}
 			_ = f.File.Close()
-			f.c.TornDone = f.c.Torn
+			f.c.TornDone = fmt.Sprintf("%s:%d/%d", f.name, n, len(p))
 		}
 		return 0, err
 	}
